@@ -224,13 +224,15 @@ Fixpoint all_draws (n k : nat) : list (list nat) :=
 Definition builder_support (k : nat) (rec : list nat) : list (list nat) :=
   flat_map (fun cs => match kopt_builder k rec cs with Some a => [a] | None => [] end) (all_draws (length rec) k).
 
-(* (k, tour, actions the implementation's sampler produced): returns 0 when each is in the model support and
-   every action of the model support yields a tour; 1 = implementation action outside the support;
-   2 = some supported action yields a non-tour *)
+(* (k, tour, actions the implementation's sampler produced): returns  code * 10^6 + size of the model support,
+   code 0 when each produced action is in the model support and every action of the model support yields a tour;
+   1 = implementation action outside the support; 2 = some supported action yields a non-tour *)
 Definition check_support (c : nat * list nat * list (list nat)) : Z :=
   match c with (k, rec, acts) =>
     let sup := builder_support k rec in
-    if negb (forallb (fun a => existsb (list_eqb a) sup) acts) then 1%Z
-    else if negb (forallb (fun a => is_tourb (k_opt k rec a)) sup) then 2%Z
-    else 0%Z
+    let code :=
+      if negb (forallb (fun a => existsb (list_eqb a) sup) acts) then 1%Z
+      else if negb (forallb (fun a => is_tourb (k_opt k rec a)) sup) then 2%Z
+      else 0%Z in
+    (code * 1000000 + Z.of_nat (length (nodup (list_eq_dec Nat.eq_dec) sup)))%Z
   end.
